@@ -85,6 +85,13 @@ Definition corr_magnet (c : N * bytes * mobs) : bool :=
   end.
 (* the hash named by the link: some 40 characters of the input are its hex form or some 32 its base32 form
    (judged where no escape can hide it: the specified shapes) *)
+(* (the encoders of Model/Magnet.v, used in the round-trip theorems, are exercised here too: a link that
+   names the hash contains the model's lower- or upper-case hex spelling or its base32 spelling of it) *)
+Definition upper (c : N) : N := if (97 <=? c) && (c <=? 122) then c - 32 else c.
+Fixpoint contains (p m : bytes) : bool :=
+  match m with [] => match p with [] => true | _ => false end | _ :: r => has_prefix p m || contains p r end.
+Definition spelled (h m : bytes) : bool :=
+  contains (hex_encode h) (map lower m) || contains (b32_encode h) m.
 Fixpoint names_hash (h m : bytes) : bool :=
   match m with
   | [] => false
@@ -97,7 +104,7 @@ Definition mon_magnet (c : N * bytes * mobs) : bool :=
   let '(_, m, o) := c in
   match o with
   | MObsPanic => false
-  | MObsOk h => (len h =? 20) && (negb (magnet_shape m) || names_hash h m)
+  | MObsOk h => (len h =? 20) && (negb (magnet_shape m) || (names_hash h m && spelled h m))
   | _ => true
   end.
 Definition bad_corr_magnet (cs : list (N * bytes * mobs)) : list N := map (fun c => fst (fst c)) (filter (fun c => negb (corr_magnet c)) cs).
